@@ -70,7 +70,8 @@ fn same_class(v: &Option<Violation>, prop: &str, code: &str) -> bool {
 
 /// ddmin over the command list, then single-command removal, keeping (property, code).
 pub fn minimise(engine: &dyn Engine, rf: &ReplayFile, budget_replays: usize, budget_s: f64) -> ReplayFile {
-    let Some(v) = rf.violation.clone() else { return rf.clone() };
+    let known_mode = rf.violation.is_none();
+    let v = rf.violation.clone().unwrap_or(Violation { property: rf.property.clone(), code: "known".into(), step: 0, detail: String::new(), finding: String::new() });
     let t0 = Instant::now();
     let mut best = rf.clone();
     let mut replays = 0usize;
@@ -79,7 +80,13 @@ pub fn minimise(engine: &dyn Engine, rf: &ReplayFile, budget_replays: usize, bud
         let mut cand = rf.clone();
         cand.commands = cmds.clone();
         let (o, _) = run_replay(engine, &cand, false);
-        if same_class(&o.violation, &v.property, &v.code) {
+        if known_mode {
+            if o.violation.is_none() && !o.known_hits.is_empty() {
+                Some((v.clone(), o.trace))
+            } else {
+                None
+            }
+        } else if same_class(&o.violation, &v.property, &v.code) {
             Some((o.violation.unwrap(), o.trace))
         } else {
             None
@@ -100,7 +107,7 @@ pub fn minimise(engine: &dyn Engine, rf: &ReplayFile, budget_replays: usize, bud
             if let Some((viol, trace)) = test(&cand, &mut replays) {
                 cmds = cand;
                 best.commands = cmds.clone();
-                best.violation = Some(viol);
+                best.violation = if known_mode { None } else { Some(viol) };
                 best.trace = format!("{trace:016x}");
                 reduced = true;
                 n = n.saturating_sub(1).max(2);
@@ -474,4 +481,39 @@ pub fn cmd_replay(engines: &[Arc<dyn Engine>], path: &str, verbose: bool) -> i32
             0
         }
     }
+}
+
+/// Dev tool: write run `idx` of a check as a replay file (optionally minimised on its known hit).
+pub fn cmd_mkreplay(engine: &Arc<dyn Engine>, prop: &str, seed: u64, idx: u64, out: &str, known: bool) -> i32 {
+    let run_seed = mix(mix(seed, prop_hash(prop)), mix(idx, prop_hash(engine.name())));
+    let (e2, p2) = (engine.clone(), prop.to_string());
+    let rec = on_fresh_thread(run_seed, move || e2.generate(run_seed, &p2));
+    let mut rf = ReplayFile {
+        format: 1,
+        engine: rec.engine.to_string(),
+        property: prop.to_string(),
+        profile: rec.profile.clone(),
+        seed,
+        run_index: idx,
+        thread_seed: run_seed,
+        expect: if known { "known".into() } else { "pass".into() },
+        config: rec.cfg.clone(),
+        commands: rec.cmds.clone(),
+        violation: rec.outcome.violation.clone(),
+        trace: format!("{:016x}", rec.outcome.trace),
+        original_commands: rec.cmds.len(),
+        note: String::new(),
+    };
+    println!("run {idx}: {} commands, violation {:?}, known hits {}", rec.cmds.len(), rec.outcome.violation.as_ref().map(|v| &v.code), rec.outcome.known_hits.len());
+    if known {
+        if rec.outcome.known_hits.is_empty() {
+            eprintln!("run has no known-finding hit");
+            return 2;
+        }
+        rf = minimise(engine.as_ref(), &rf, 3000, 120.0);
+        rf.expect = "known".into();
+    }
+    std::fs::write(out, serde_json::to_string_pretty(&rf).unwrap()).unwrap();
+    println!("wrote {out} ({} commands)", rf.commands.len());
+    0
 }
